@@ -284,6 +284,10 @@ int main(void) {
 		int now;
 		for (i = 0; i < MAXID; i++) { if (g_id[i].fdr >= 0 && g_id[i].fdr != 0) close(g_id[i].fdr); if (g_id[i].fdw > 0 && g_id[i].fdw != g_id[i].fdr) close(g_id[i].fdw); g_id[i].fdr = g_id[i].fdw = -1; }
 		now = tm_fd_count() + (int)g_kid_next; /* control pipes of children that were told to exit are closed by design */
+		for (i = 0; i < 100 && now != g_fd_base; i++) { /* a leak persists; a descriptor held briefly by the runtime does not */
+			struct timespec ts = {0, 2000000}; nanosleep(&ts, NULL);
+			now = tm_fd_count() + (int)g_kid_next;
+		}
 		if (now != g_fd_base) { tm_tid = 999; viol(V_FD_LEAK, -1, ((int64_t)g_fd_base << 32) | (uint32_t)now); }
 	}
 	tp_shutdown(g_tp); tp_shutdown_wait(g_tp); tp_destroy(g_tp);
